@@ -161,6 +161,15 @@ func genC14(cw *caseWriter, seed uint64, tier string) {
 				}
 			}
 		}
+		// integers as the reader delivers them (json.Number) into timestamp / date-time columns declared without a raw
+		// type or with an integer one, written as timestamps and as date-times: read as Unix seconds, never refused
+		for _, n := range []string{"0", "1", "1600000000", "1632518460", "253402214400", "86399", "951782400"} {
+			for _, ci := range []colDesc{{name: "c", format: "timestamp", ty: "none"}, {name: "c", format: "datetime", ty: "none"}, {name: "c", format: "auto", ty: "none"}, {name: "c", format: "numeric", ty: "none"}, {name: "c", format: "timestamp", ty: "i64"}} {
+				for _, co := range []colDesc{{name: "c", format: "timestamp", ty: "none"}, {name: "c", format: "datetime", ty: "none"}, {name: "c", format: "timestamp", ty: "i64"}} {
+					emitLine(cw, "C14", []colDesc{ci}, []colDesc{co}, []byte(`{"c":`+n+`}`), true)
+				}
+			}
+		}
 		// an UNDECLARED member whose name differs from the column's by case only, before or after it, holding another
 		// instant: it is another member — the column keeps its own value, offset included
 		for _, txt := range colTexts[:12] {
